@@ -175,13 +175,14 @@ def get_pipeline_definition(pipeline_name, parent):
         os.symlink(root / target, lp)
 
 
-def run_subprocess(root, scenario, repo, timeout=120):
+def run_subprocess(root, scenario, repo, timeout=120, extra_env=None):
     scenario = dict(scenario, repo=str(repo), lib=str(root / 'lib'))
     sf = root / 'scenario.json'
     sf.write_text(json.dumps(scenario))
     cwd = root / 'w'
     cwd.mkdir(exist_ok=True)
     env = {k: v for k, v in os.environ.items() if not k.startswith('PYTHON') and not k.startswith('PYPYR')}
+    env.update(extra_env or {})
     try:
         p = subprocess.run([sys.executable, '-I', str(RUNNER), str(sf)], cwd=str(cwd), env=env,
                            stdout=subprocess.PIPE, stderr=subprocess.PIPE, text=True, timeout=timeout)
@@ -1212,6 +1213,208 @@ def judge_seq_case(env, res, case, dirs, impl):
                 res.mismatch(case, {'lookup': k - 1, **mm, 'sysPath': ma}, {'lookup': k - 1, **got, 'sysPath': ia})
                 break
 
+
+# ---------------------------------------------------------------------------------------------
+# subdir scenarios: step 4 is the cwd's CONFIGURED pipelines sub-directory (config.pipelines_subdir)
+# ---------------------------------------------------------------------------------------------
+
+SUB_WHERE = {'local': 'w/pypyr-config.yaml', 'pyproject': 'w/pyproject.toml', 'user': 'xh/pypyr/config.yaml',
+             'common': 'xd/pypyr/config.yaml', 'global': 'g.yaml'}
+
+
+def config_text(where, sub):
+    return f'[tool.pypyr]\npipelines_subdir = {json.dumps(sub)}\n' if where == 'pyproject' else f'pipelines_subdir: {json.dumps(sub)}\n'
+
+
+def subdir_cases(rng, quick):
+    """The configured sub-directory x where it is configured x how the process gets to its first pipeline load (the command
+    line; import -> config.init() -> run; import -> assignment -> run; a change AFTER the first load; the loader module
+    imported by the client before configuring) x every subset of {cwd, cwd/<sub>, cwd/pipelines} holding the file, for plain and
+    nested names and for a pype child whose caller lives elsewhere."""
+    out = []
+    subs = ['pipes', 'a/b', 'pipelines']
+    modes = ['cli', 'api-init', 'api-set']
+    for sub in subs:
+        for where in (['local', 'pyproject', 'user', 'common', 'global', 'local+pyproject'] if sub != 'pipelines' else ['local', None]):
+            for mode in modes:
+                if mode == 'api-set' and where not in ('local', None):
+                    continue
+                for name in ('vp0', 'sub/vp0', 'child'):
+                    locs = [f'w/{sub}/NAME.yaml', 'w/NAME.yaml'] + ([f'w/pipelines/NAME.yaml'] if sub != 'pipelines' else [])
+                    for k in range(len(locs) + 1):
+                        for present in itertools.combinations(locs, k):
+                            out.append((sub, where, mode, name, list(present)))
+    cases = []
+    for sub, where, mode, name, present in out:
+        leaf = 'vp1' if name == 'child' else name
+        files = [f.replace('NAME', leaf) for f in present]
+        if name == 'child':
+            runs = [{'hops': [hop('/R/e/vp0'), hop('vp1')], 'rootLoader': None}]
+            files = ['e/vp0.yaml'] + files
+            lookups = [['lookup', '/R/e/vp0'], ['child', 'vp1']]
+            root_name = '/R/e/vp0'
+        else:
+            runs = [{'hops': [hop(name)], 'rootLoader': None}]
+            lookups = [['lookup', name]]
+            root_name = name
+        configs = {}
+        eff = sub
+        if mode == 'api-set':
+            where_eff = None
+        else:
+            where_eff = where
+        if where_eff == 'local+pyproject':
+            configs[SUB_WHERE['local']] = config_text('local', sub)
+            configs[SUB_WHERE['pyproject']] = config_text('pyproject', 'loses')
+        elif where_eff:
+            configs[SUB_WHERE[where_eff]] = config_text(where_eff, sub)
+        elif mode != 'api-set':
+            eff = 'pipelines'
+        imp = {'op': 'import', 'module': 'pypyr.cli' if mode == 'cli' else 'pypyr.pipelinerunner'}
+        if mode == 'cli':
+            script, mops = [imp, {'op': 'cli', 'name': root_name}], [['config', eff]] + lookups
+        elif mode == 'api-init':
+            script, mops = [imp, {'op': 'init'}, {'op': 'run', 'name': root_name}], [['config', eff]] + lookups
+        else:
+            script, mops = [imp, {'op': 'set', 'subdir': sub}, {'op': 'run', 'name': root_name}], [['config', sub]] + lookups
+        cases.append({'kind': 'subdir', 'tag': f'{mode}:{where_eff}', 'sub': eff, 'runs': runs, 'files': sorted(set(files)),
+                      'configs': configs, 'global': where_eff == 'global', 'script': script, 'mops': mops,
+                      'judged': [True], 'mkdirs': ['w/' + sub, 'xh/pypyr', 'xd/pypyr', 'home']})
+    # the configuration changes AFTER the first pipeline load / the client imports the loader module before configuring:
+    # where the code reads the value (model == implementation; the monitor judges only look-ups made under a configuration
+    # that was settled before the first load)
+    for sub in ('pipes', 'a/b'):
+        for present in (['w/pipelines/vp0.yaml', f'w/{sub}/vp0.yaml'], [f'w/{sub}/vp0.yaml'], ['w/pipelines/vp0.yaml']):
+            imp = {'op': 'import', 'module': 'pypyr.pipelinerunner'}
+            cases.append({'kind': 'subdir', 'tag': 'api-late-change', 'sub': 'pipelines', 'runs': [{'hops': [hop('vq0')], 'rootLoader': None},
+                                                                                                    {'hops': [hop('vp0')], 'rootLoader': None}],
+                          'files': ['w/pipelines/vq0.yaml'] + present, 'configs': {}, 'global': False,
+                          'script': [imp, {'op': 'run', 'name': 'vq0'}, {'op': 'set', 'subdir': sub}, {'op': 'run', 'name': 'vp0'}],
+                          'mops': [['lookup', 'vq0'], ['config', sub], ['lookup', 'vp0']], 'judged': [True, False],
+                          'mkdirs': ['w/' + sub, 'xh/pypyr', 'xd/pypyr', 'home']})
+            cases.append({'kind': 'subdir', 'tag': 'api-loader-imported-first', 'sub': sub, 'runs': [{'hops': [hop('vp0')], 'rootLoader': None}],
+                          'files': present, 'configs': {SUB_WHERE['local']: config_text('local', sub)}, 'global': False,
+                          'script': [{'op': 'import', 'module': 'pypyr.loaders.file'}, {'op': 'init'}, {'op': 'run', 'name': 'vp0'}],
+                          'mops': [['import'], ['config', sub], ['lookup', 'vp0']], 'judged': [False],
+                          'mkdirs': ['w/' + sub, 'xh/pypyr', 'xd/pypyr', 'home']})
+    if quick:
+        late = [c for c in cases if c['tag'] in ('api-late-change', 'api-loader-imported-first')]
+        key = [c for c in cases if c['sub'] != 'pipelines' and c['files'] and not c['tag'].startswith('api-set') and c not in late]
+        rest = [c for c in cases if c not in key and c not in late]
+        cases = rng.sample(key, min(len(key), 100)) + rng.sample(rest, min(len(rest), 30)) + late
+    return cases
+
+
+def run_subdir_case(case, repo):
+    root = Path(tempfile.mkdtemp(prefix='c19d')).resolve()
+    try:
+        build_run_tree(root, case)
+        for rel, txt in case['configs'].items():
+            f = root / rel
+            f.parent.mkdir(parents=True, exist_ok=True)
+            f.write_text(txt)
+        extra = {'XDG_CONFIG_HOME': str(root / 'xh'), 'XDG_CONFIG_DIRS': str(root / 'xd'), 'HOME': str(root / 'home')}
+        if case.get('global'):
+            extra['PYPYR_CONFIG_GLOBAL'] = str(root / 'g.yaml')
+        script = [dict(op, name=conc(root, op['name'])) if 'name' in op else op for op in case['script']]
+        out = run_subprocess(root, {'kind': 'subdir', 'script': script}, repo, extra_env=extra)
+        if out.get('timeout'):
+            out = {'builtin': '/nowhere', 'config_cwd': str(root / 'w'), 'loader_imported': [],
+                   'results': [{'trail': None, 'err': 'timeout', 'msg': 'the process did not return within 120 s', 'subdir_config': None}]}
+        canon = Canon(root, out['builtin'])
+        if canon(out['config_cwd']) != CWD:
+            raise common.Infra(f'runner cwd is {out["config_cwd"]}')
+        files, dirs = fs_of(root, canon)
+        impl = {'results': [{'trail': [canon(t) for t in r['trail']] if r.get('trail') is not None else None, 'err': r['err'],
+                             'msg': canon(r.get('msg')), 'subdir_config': r.get('subdir_config')} for r in out['results']],
+                'loader_imported': out['loader_imported']}
+        return case, files, dirs, impl
+    finally:
+        shutil.rmtree(root, ignore_errors=True)
+
+
+def spec_resolve_sub(name, parent, fs, sub):
+    """the property text with the configured sub-directory in place of `pipelines`"""
+    if name.startswith('/'):
+        q = fs.is_file(name + '.yaml')
+        return ({'ok': q} if q else {'err': 'PipelineNotFoundError'}), None
+    searched = []
+    if parent:
+        rp = fs.resolve(parent)
+        if rp in fs.dirs and rp != CWD:
+            searched.append(rp)
+    searched += [CWD, f'{CWD}/{sub}', '/B']
+    for d in searched:
+        q = fs.is_file(f'{d}/{name}.yaml')
+        if q:
+            return {'ok': q}, searched
+    return {'err': 'PipelineNotFoundError'}, searched
+
+
+def judge_subdir_case(env, res, case, files, dirs, impl):
+    res.case(case)
+    res.count('subdir:' + case['tag'])
+    res.count('subdir:sub=' + case['sub'])
+    fs = AbsFs(files, dirs, {})
+    # static part of the model: `import pypyr.cli` / `import pypyr.pipelinerunner` do not import the file loader (it is
+    # imported on the first pipeline load, when its module constant cwd_pipelines_dir reads config.pipelines_subdir)
+    for mod, loaded in impl['loader_imported']:
+        if loaded and mod != 'pypyr.loaders.file':
+            res.mismatch(case, {'import': mod, 'imports pypyr.loaders.file': False}, {'import': mod, 'imports pypyr.loaders.file': True},
+                         'the model reads config.pipelines_subdir at the first pipeline load (lazy import of pypyr.loaders.file)')
+            break
+    model = env.driver.ask('resolve.subdir', cwd=CWD, builtin='/B', files=files, dirs=dirs, ops=case['mops'])
+    # the model's look-ups, grouped per root run
+    mi = iter(model)
+    for k, (run, r) in enumerate(zip(case['runs'], impl['results'])):
+        sub = r['subdir_config'] if r['subdir_config'] is not None else case['sub']
+        ran = files_of_trail(r['trail'])
+        # ---- monitor: the configuration in force at this look-up names the sub-directory
+        want_ran, want_err, searched, parent = [], None, None, None
+        for h in run['hops']:
+            w, searched = spec_resolve_sub(h['name'], parent, fs, sub)
+            if 'err' in w:
+                want_err = h['name']
+                break
+            want_ran.append(w['ok'][3:])
+            parent = w['ok'].rsplit('/', 1)[0]
+        if case['judged'][k]:
+            sig = {'clause': 'resolve_first_existing', 'step': 'cwd-pipelines-subdir', 'configured': 'default' if sub == 'pipelines' else 'non-default',
+                   'via': case['tag'].split(':')[0]}
+            if sub != case['sub'] and r['err'] != 'timeout':
+                res.mismatch(case, {'config.pipelines_subdir': case['sub']}, {'config.pipelines_subdir': sub}, 'the scenario configures another value')
+            if r['err'] and r['err'] != 'PipelineNotFoundError':
+                res.violation(case, f'look-up {k} ended with {r["err"]}: {r["msg"]}', signature=dict(sig, clause='unexpected-error'), impl=impl)
+            elif want_err is None:
+                if r['err'] or ran != want_ran:
+                    res.violation(case, f'pipelines_subdir = {sub!r} (configured in {sorted(case["configs"]) or "the process"}): pipelines that ran {ran} '
+                                        f'(error {r["err"]}: {r["msg"]}); by the resolution order cwd, cwd/{sub}, built-ins: {want_ran}',
+                                  signature=sig, impl=impl)
+            else:
+                if not r['err'] or ran != want_ran:
+                    res.violation(case, f'pipelines_subdir = {sub!r}: {want_err} exists nowhere in {searched}, yet {ran} ran (error {r["err"]})',
+                                  signature=sig, impl=impl)
+                elif not judge_not_found(r['msg'], want_err, searched):
+                    res.violation(case, f'pipelines_subdir = {sub!r}: the not-found error does not list the searched places {searched}: {r["msg"]!r}',
+                                  signature=dict(sig, clause='not_found_lists_searched'), impl=impl)
+        # ---- model == implementation
+        mran, merr = [], None
+        for _h in run['hops']:
+            m = next(mi, None)
+            if m is None:
+                break
+            if 'ok' in m:
+                mran.append(m['ok'][3:])
+            else:
+                merr = m['err']
+                break
+        iv = {'ran': ran, 'err': r['msg'] if r['err'] == 'PipelineNotFoundError' else r['err']}
+        mv = {'ran': mran, 'err': merr}
+        if mv != iv:
+            res.mismatch(case, {'lookup': k, **mv}, {'lookup': k, **iv})
+            break
+
+
 # ---------------------------------------------------------------------------------------------
 # entry points
 # ---------------------------------------------------------------------------------------------
@@ -1226,6 +1429,58 @@ def cli_dir_default(repo):
             kw = {k.arg: ast.unparse(k.value) for k in n.keywords}
             return kw.get('dest'), kw.get('default')
     return None, None
+
+
+def static_subdir_tie(res, repo):
+    """ast: pypyr/loaders/file.py binds `cwd_pipelines_dir` at MODULE level to `config.cwd.joinpath(config.pipelines_subdir)` (the
+    model's `SubProc.imported`: the value is read when the module is imported), get_pipeline_path uses that name for step 4, and
+    no module that `pypyr/cli.py` imports at module level (transitively, inside the package) imports pypyr.loaders.file."""
+    import ast
+    pkg = Path(repo) / 'pypyr'
+    tree = ast.parse((pkg / 'loaders' / 'file.py').read_text())
+    bind = [ast.unparse(n.value) for n in tree.body if isinstance(n, ast.Assign)
+            and any(isinstance(t, ast.Name) and t.id == 'cwd_pipelines_dir' for t in n.targets)]
+    want = ['config.cwd.joinpath(config.pipelines_subdir)']
+    if bind != want:
+        res.mismatch({'static': 'pypyr/loaders/file.py cwd_pipelines_dir'}, want, bind,
+                     'where the code reads config.pipelines_subdir is not what the model (Resolve.SubProc) says')
+    fn = next((n for n in tree.body if isinstance(n, ast.FunctionDef) and n.name == 'get_pipeline_path'), None)
+    uses = fn is not None and any(isinstance(n, ast.Name) and n.id == 'cwd_pipelines_dir' for n in ast.walk(fn))
+    if not uses:
+        res.mismatch({'static': 'get_pipeline_path step 4'}, 'cwd_pipelines_dir', None, 'step 4 no longer uses the module constant')
+
+    def top_imports(path):
+        out = set()
+        try:
+            t = ast.parse(path.read_text())
+        except (OSError, SyntaxError):
+            return out
+        for n in t.body:
+            for x in ([n] if isinstance(n, (ast.Import, ast.ImportFrom)) else
+                      [y for y in ast.walk(n) if isinstance(y, (ast.Import, ast.ImportFrom))] if isinstance(n, (ast.If, ast.Try)) else []):
+                if isinstance(x, ast.Import):
+                    out.update(a.name for a in x.names)
+                elif x.module and x.level == 0:
+                    out.add(x.module)
+                    out.update(f'{x.module}.{a.name}' for a in x.names)
+        return {m for m in out if m == 'pypyr' or m.startswith('pypyr.')}
+
+    def mod_file(m):
+        p = Path(repo).joinpath(*m.split('.'))
+        return p / '__init__.py' if p.is_dir() else p.with_suffix('.py')
+    for entry in ('pypyr.cli', 'pypyr.pipelinerunner'):
+        seen, todo = set(), [entry]
+        while todo:
+            m = todo.pop()
+            if m in seen or not mod_file(m).exists():
+                continue
+            seen.add(m)
+            todo += list(top_imports(mod_file(m)))
+        res.count('static:import-closure:' + entry)
+        if 'pypyr.loaders.file' in seen:
+            res.mismatch({'static': f'module-level imports reachable from {entry}'}, 'pypyr.loaders.file not among them',
+                         sorted(m for m in seen if 'pypyr.loaders.file' in top_imports(mod_file(m))),
+                         'pypyr.loaders.file is imported before config.init() can run: its module constant freezes pipelines_subdir early')
 
 
 def run(env, res):
@@ -1263,10 +1518,13 @@ def run(env, res):
     seqs += seq_cases_pairs(env.rng, env.n(3, 2), env.n(120, None))
     seqs += [seq_case_random(env.rng) for _ in range(env.n(150, 1000))]
     res.extra['sequences'] = len(seqs)
+    subs = subdir_cases(env.rng, env.quick)
+    res.extra['subdir_scenarios'] = len(subs)
     with ThreadPoolExecutor(max_workers=workers) as pool:
         pfut = [pool.submit(run_path_chunk, ch, repo) for ch in chunks if ch]
         rfut = [pool.submit(run_run_case, c, repo) for c in runs]
         sfut = [pool.submit(run_seq_case, c, repo) for c in seqs]
+        dfut = [pool.submit(run_subdir_case, c, repo) for c in subs]
         for fu in pfut:
             results, pypyr_file = fu.result()
             if not str(pypyr_file).startswith(str(repo)):
@@ -1277,6 +1535,9 @@ def run(env, res):
             judge_run_case(env, res, *fu.result())
         for fu in sfut:
             judge_seq_case(env, res, *fu.result())
+        for fu in dfut:
+            judge_subdir_case(env, res, *fu.result())
+    static_subdir_tie(res, repo)
 
 
 def replay(env, res, payload):
@@ -1288,6 +1549,10 @@ def replay(env, res, payload):
         for c, files, dirs, impl in results:
             judge_path_case(env, res, c, files, dirs, impl)
             res.extra['replayed'] = impl
+    elif case.get('kind') == 'subdir':
+        c, files, dirs, impl = run_subdir_case(case, common.REPO)
+        judge_subdir_case(env, res, c, files, dirs, impl)
+        res.extra['replayed'] = impl
     elif case.get('kind') == 'seq':
         c, dirs, impl = run_seq_case(case, common.REPO)
         judge_seq_case(env, res, c, dirs, impl)
